@@ -321,7 +321,7 @@ theorem additionalSearch_fromZone {z : Zone} {n0 : LName} {t : Nat} {next : LNam
     (h : additionalSearch z n0 t next = some l) : ∀ x ∈ l, rdatasFromZone z x := by
   unfold additionalSearch at h
   dsimp only at h
-  generalize hq : (if (t == T_NS || t == T_MX) = true then [T_A, T_AAAA] else [t]) = qts at h
+  generalize hq : (if (t == T_ANAME || t == T_NS || t == T_MX || t == T_SRV) = true then [T_A, T_AAAA] else [t]) = qts at h
   have hf := foldl_addLoop_fromZone (z := z) (F := addFuel z)
     (names := fun qt => if (qt == t) = true then [n0] else []) (next := next) qts []
     (by intro y hy; cases hy)
